@@ -10,7 +10,9 @@ package embedded
 //@   modifies block.Data
 
 // The plasma price of a method is a constant of the plasma table.
-//@ func Method.GetPlasma(self, plasmaTable)
+//@ spec methodPrice(m Method) int
+//@ func Method.GetPlasma(self, plasmaTable) -> (price, err)
+//@   ensures err == nil ==> price == methodPrice(self)
 //@   modifies nothing
 
 // ReceiveBlock works on the contract's storage only: it must not touch balances, the received set or the inbox cursor
